@@ -26,6 +26,10 @@ container.py `Network.pre_timestep`):
   none of them releases its reservation: such a send is `Ev.lost` / `Ev.wlost` (verdict `lost`), with whatever had completed
   inside it.  The exception may be caught further up (the enclosing sends are then ordinary `send`s) or reach the caller of
   the action (every enclosing send is `lost`);
+* the airspace keeps, per hz, the list of interfaces `AirSpace.transmit` walks; `enable()` = flag + `add_wireless_interface`,
+  `disable()` = flag + `remove_wireless_interface`, both also callable on their own, `clear()` empties every list: `Chan.mem`,
+  `Ev.wjoin`, `Ev.wleave`.  None of them touches `bandwidth_load` (Gen: `airLoadWriters`, `airMembershipOps`), also when a list
+  becomes empty.  An access point re-configured onto another frequency is one interface of two channels (off one, on the other);
 * `link.bandwidth` and the capacity of a frequency name are plain attributes a user's script can reassign between two actions
   (`Op.setBw`, `Op.setCap`); no code of the simulator does so after construction (Gen: `capacityWriters`).  Neither looks at or
   touches a load.
